@@ -13,7 +13,9 @@ Import ListNotations.
 (* if_style: for ALL conditions and branches, every oracle and fuel: the short-circuit form reaches the state of the
    conditional expression *)
 Theorem C01_if_styles_agree_partial : forall orc t b o s v s',
-  Ev orc (MExpr (IfExp t b o)) s (v, s') -> exists v', Ev orc (MExpr (short_form t b o)) s (v', s').
+  Ev orc (MExpr (IfExp t b o)) s (v, s') ->
+  (exists v', Ev orc (MExpr (short_form_gen once_not t b o)) s (v', s')) /\
+  (exists v', Ev orc (MExpr (short_form_gen once_if t b o)) s (v', s')).
 Proof. exact if_styles_agree. Qed.
 Print Assumptions C01_if_styles_agree_partial.
 
@@ -35,7 +37,9 @@ Print Assumptions C01_module_control_flow_partial.
 
 (* the short-circuit form the converter model emits is the one of the theorem *)
 Example C01_nonvacuous :
-  if_result (mkCfg false true false) (Name "t") [Name "a"; Name "b"] [Name "c"; Name "d"] =
-  short_form (Name "t") (EList [Name "a"; Name "b"]) (EList [Name "c"; Name "d"]) /\
+  if_result (mkCfg false true false) false (Name "t") [Name "a"; Name "b"] [Name "c"; Name "d"] =
+  short_form_gen once_not (Name "t") (EList [Name "a"; Name "b"]) (EList [Name "c"; Name "d"]) /\
+  if_result (mkCfg false true false) true (Name "t") [Name "a"; Name "b"] [Name "c"; Name "d"] =
+  short_form_gen once_if (Name "t") (EList [Name "a"; Name "b"]) (EList [Name "c"; Name "d"]) /\
   eval_chain nat (fun e n => Some (Datatypes.S n)) (chain_call [Name "a"; Name "b"; Name "c"]) 0 = Some 3.
-Proof. split; reflexivity. Qed.
+Proof. repeat split; reflexivity. Qed.
